@@ -23,6 +23,7 @@ RULE = ('(seq) random trees of nested config_scope entries (identifier, a/b, lis
         'reference objects, at the start or the end of their programs; every other multi-thread run executes each thread inside its own '
         'copy of the main thread\'s context (contextvars.copy_context().run); sequential programs start a thread (plain or in a copied '
         'context) that sits inside its own list scope while the starter enters and leaves blocks, both sides observing. '
+        'Invalid entries include lists holding non-strings. '
         'distinct = program shapes / schedule traces')
 TIERS = {
     'quick': {'workers': 8, 'cases': 400, 'timeout': 900, 'thread_cases': 6, 'random_runs': 20, 'pct_runs': 9, 'preempt_samples': 40,
